@@ -104,6 +104,111 @@ def A(rel, l, r):
     return ("any", _cmp(rel, l, r))
 
 
+def _noneness_cases(init, tracked):
+    """finite-domain evaluation of the constructor's opening (up to the statement that reads the dimension into self.D)
+    over which of the problem arguments are None: -> {assignment: (outcome, env)} with outcome 'continue' / 'raise <Exc>' /
+    'crash' (attribute of None) or None when a statement that involves a tracked value is outside the language."""
+    import itertools
+
+    N, U = "<None>", "<unknown>"
+
+    class Stop(Exception):
+        pass
+
+    class Done(Exception):
+        def __init__(self, what):
+            self.what = what
+
+    def reads(e):
+        return {n.id for n in ast.walk(e) if isinstance(n, ast.Name) and isinstance(n.ctx, ast.Load)}
+
+    def ev(e, env):
+        if isinstance(e, ast.Constant):
+            return N if e.value is None else (e.value if isinstance(e.value, bool) else ("val", frozenset()))
+        if isinstance(e, ast.Name):
+            return env.get(e.id, U)
+        if isinstance(e, ast.UnaryOp) and isinstance(e.op, ast.Not):
+            v = ev(e.operand, env)
+            return (not v) if isinstance(v, bool) else (False if isinstance(v, tuple) and v[0] == "arg" and False else U)
+        if isinstance(e, ast.BoolOp):
+            vals = [ev(v, env) for v in e.values]
+            is_and = isinstance(e.op, ast.And)
+            for v in vals:
+                if isinstance(v, bool):
+                    if v != is_and:
+                        return v
+                else:
+                    return U
+            return is_and
+        if isinstance(e, ast.Compare) and len(e.ops) == 1 and isinstance(e.ops[0], (ast.Is, ast.IsNot)):
+            l, r = ev(e.left, env), ev(e.comparators[0], env)
+            if r == N and l != U:
+                return (l == N) == isinstance(e.ops[0], ast.Is)
+            if l == N and r != U:
+                return (r == N) == isinstance(e.ops[0], ast.Is)
+            return U
+        # anything else: a value computed from what it reads; reading an attribute / item of None crashes
+        for n in ast.walk(e):
+            if isinstance(n, (ast.Attribute, ast.Subscript)) and isinstance(n.value, ast.Name) and env.get(n.value.id) == N:
+                raise Done("crash")
+        rs = reads(e) & set(env)
+        if not rs:
+            return U
+        src = set()
+        for r_ in rs:
+            v = env[r_]
+            if isinstance(v, tuple):
+                src |= set(v[1])
+        return ("val", frozenset(src))
+
+    def involved(st, env):
+        return bool(reads(st) & set(env)) or any(isinstance(n, ast.Name) and not isinstance(n.ctx, ast.Load) and n.id in env for n in ast.walk(st))
+
+    def run(stmts, env):
+        for st in stmts:
+            if isinstance(st, ast.Assign) and len(st.targets) == 1 and isinstance(st.targets[0], ast.Attribute) and st.targets[0].attr == "D" and isinstance(st.targets[0].value, ast.Name) and st.targets[0].value.id == "self":
+                raise Done("continue")
+            if isinstance(st, ast.Assign) and len(st.targets) == 1 and isinstance(st.targets[0], ast.Name):
+                v = ev(st.value, env)
+                if v is U and st.targets[0].id in env:
+                    raise Stop()
+                if v is not U:
+                    env[st.targets[0].id] = v
+                continue
+            if isinstance(st, ast.If):
+                t = ev(st.test, env)
+                if isinstance(t, bool):
+                    run(st.body if t else st.orelse, env)
+                    continue
+                if involved(st, env) or any(isinstance(n, ast.Raise) for n in ast.walk(st)):
+                    raise Stop()
+                continue
+            if isinstance(st, ast.Raise):
+                raise Done("raise " + (canon(st.exc.func) if isinstance(st.exc, ast.Call) else canon(st.exc) if st.exc is not None else ""))
+            if isinstance(st, (ast.Expr, ast.Assign, ast.AugAssign, ast.AnnAssign, ast.Pass)):
+                if any(isinstance(n, ast.Name) and not isinstance(n.ctx, ast.Load) and n.id in env for n in ast.walk(st)):
+                    raise Stop()
+                for n in ast.walk(st):
+                    if isinstance(n, (ast.Attribute, ast.Subscript)) and isinstance(n.value, ast.Name) and env.get(n.value.id) == N:
+                        raise Done("crash")
+                continue
+            if involved(st, env) or any(isinstance(n, (ast.Raise, ast.Return)) for n in ast.walk(st)):
+                raise Stop()
+        return
+
+    out = {}
+    for bits in itertools.product((False, True), repeat=len(tracked)):
+        env = {p: (("arg", frozenset([p])) if b else N) for p, b in zip(tracked, bits)}
+        try:
+            run(init.node.body, env)
+            out[bits] = (None, env)
+        except Done as d:
+            out[bits] = (d.what, env)
+        except Stop:
+            out[bits] = (None, env)
+    return out
+
+
 def check(ctx):
     prog = ctx.prog
     R = roles_of(prog)
@@ -272,7 +377,30 @@ def check(ctx):
             if any(x == "(x0 is None)" for x in g) and any("plausible_lower_bounds is None" in x and "plausible_upper_bounds is None" in x and " or " in x for x in g):
                 found = True
                 ctx.ok(init, node, "no x0 and a missing plausible bound -> ValueError (dimension unknown)")
-    if not found:
+    cases = None
+    if len(iparams) > 5:
+        tracked = iparams[1:6]  # x0, lb, ub, plb, pub
+        cases = _noneness_cases(init, tracked)
+        if any(o is None for o, _e in cases.values()):
+            cases = None
+    if not found and cases is not None:
+        # another spelling of the guard (flags taken at entry, nested tests): decided over which arguments are None
+        def _show(bits):
+            return ", ".join(f"{p} {'given' if b else 'omitted'}" for p, b in zip(tracked, bits))
+
+        bad = []
+        for bits, (outcome, _env) in sorted(cases.items()):
+            x0g, lbg, ubg, plbg, pubg = bits
+            must_raise = (not x0g) and not ((plbg or lbg) and (pubg or ubg))
+            if must_raise and outcome != "raise ValueError":
+                bad.append(f"with {_show(bits)} the constructor {'goes on' if outcome == 'continue' else 'crashes on None' if outcome == 'crash' else 'raises ' + outcome[6:]} instead of raising ValueError (dimension unknown)")
+            elif not must_raise and outcome != "continue":
+                bad.append(f"with {_show(bits)} (a definition whose dimension is known) the constructor {'crashes on None' if outcome == 'crash' else 'raises ' + outcome[6:]}")
+        if bad:
+            ctx.fail(init, init.node, "unknown-dimension guard: " + bad[0], construct="unknown-dimension guard by cases")
+        else:
+            ctx.ok(init, init.node, "no x0 and a missing plausible bound -> ValueError, every other combination of omitted arguments proceeds (32 cases)")
+    elif not found:
         ctx.fail(init, init.node, "no guard raises ValueError when neither x0 nor both plausible bounds are given", construct="<missing guard: unknown dimension>")
     # transformer's own checks
     T = R.transformer
@@ -355,6 +483,25 @@ def check(ctx):
                 if any(f"{pb} is None" in x for x in g):
                     ok = True
                     ctx.ok(init, s, f"{pb} defaults to {canon(v)}")
+        if not ok and cases is not None:
+            # decided over which arguments are None: wherever pb is omitted, hb given and the constructor goes on, pb holds a
+            # value computed from hb when the dimension is read; a given pb is left as it is
+            i_pb, i_hb = tracked.index(pb), tracked.index(hb)
+            bad = None
+            for bits, (outcome, env_) in sorted(cases.items()):
+                if outcome != "continue":
+                    continue
+                v_ = env_.get(pb)
+                if not bits[i_pb] and bits[i_hb] and not (isinstance(v_, tuple) and hb in v_[1]):
+                    bad = f"omitted {pb} is not defaulted from {hb} (it is {'None' if v_ == '<None>' else 'something else'} when the dimension is read)"
+                elif bits[i_pb] and not (isinstance(v_, tuple) and v_[1] == frozenset([pb])):
+                    bad = f"a given {pb} is replaced by a value not computed from it alone"
+            if bad is None:
+                ok = True
+                ctx.ok(init, init.node, f"{pb} defaults to a value computed from {hb} in every case where it is omitted (by cases)")
+            else:
+                ctx.fail(init, init.node, bad, construct=f"<default of {pb} by cases>")
+                continue
         if not ok:
             ctx.fail(init, init.node, f"omitted {pb} is no longer defaulted from {hb}", construct=f"<missing default of {pb}>")
     # ------------------------------------------------------------------ R7
